@@ -65,13 +65,17 @@ func newV1Engine(c v1cfg) *v1engine {
 
 // check runs one Check through commands.CheckQuery over this engine's resolver chain.
 func (e *v1engine) check(env *e2.Env, ts *typesystem.TypeSystem, o, r, sub string, rc *int, ctxTuples ...ref.Tuple) e2.Outcome {
+	return e.checkCtx(context.Background(), env, ts, o, r, sub, rc, ctxTuples...)
+}
+
+func (e *v1engine) checkCtx(ctx context.Context, env *e2.Env, ts *typesystem.TypeSystem, o, r, sub string, rc *int, ctxTuples ...ref.Tuple) e2.Outcome {
 	q := commands.NewCheckCommand(env.DS, e.resolver, ts, commands.WithCheckCommandMaxConcurrentReads(e.cfg.Reads))
 	params := &commands.CheckCommandParams{StoreID: env.StoreID,
 		TupleKey: &openfgav1.CheckRequestTupleKey{Object: o, Relation: r, User: sub}, Context: e2.ReqCtx(rc)}
 	if len(ctxTuples) > 0 {
 		params.ContextualTuples = &openfgav1.ContextualTupleKeys{TupleKeys: e2.ToTKs(ctxTuples)}
 	}
-	res, err := q.Execute(context.Background(), params)
+	res, err := q.Execute(ctx, params)
 	if err != nil {
 		return e2.ErrOutcome(err)
 	}
